@@ -13,6 +13,9 @@ KANI_UNITS = {
 }
 
 NATIVE_UNITS = {
+    "tail_arity_witness": {"file": "src/interpreter/interpreter.rs", "source": "tail_arity.rs",
+                           "modpath": "interpreter::interpreter", "test": "verif_native_tail_arity_witness",
+                           "role": "witness", "for_fns": ["apply_procedure"]},
     "complete_witness": {"file": "src/repl.rs", "source": "repl_complete.rs", "modpath": "repl",
                          "test": "verif_native_complete_witness", "role": "witness",
                          "for_fns": ["check_bracket_closed", "witness_caller"]},
@@ -20,7 +23,33 @@ NATIVE_UNITS = {
                         "test": "verif_native_complete_oracle", "role": "oracle", "tier": "thorough"},
 }
 
+_TAIL_UNVERIFIED = [
+    "eval_expression, eval_procedure_call, apply_scheme_procedure (iterator adapters / closures / RefCell frames): assumed contracts",
+    "the derived forms of grammar.sld keep their last sub-form in tail position (Scheme text, see C05)",
+    "stack depth and live heap as such: no contract language here measures them; the per-function facts the anchors name are what is proved",
+]
+
 PROPS = {
+    "C02": {
+        "verus": ["interp_tail"], "kani": [], "native": [],
+        "level": "proof",
+        "explanation": "eval_tail_expression / eval_owned_tail_expression are proved to RETURN a call in tail position (same operator, "
+                       "operands and frame) instead of performing it, to evaluate only the test of a tail `if`, and to select the arm "
+                       "by truthiness; apply_procedure is proved to continue a tail call by rebinding (it holds no permission to call "
+                       "itself), on exactly the pending call handed back by apply_scheme_procedure; TailCall::as_ref returns the stored components.",
+        "unverified": _TAIL_UNVERIFIED,
+        "assumptions": ["functional oracle for the opaque evaluator: one evaluation of the test and two are not distinguished"],
+    },
+    "C08": {
+        "verus": ["interp_tail", "values_num"], "kani": [], "native": ["tail_arity_witness"],
+        "level": "proof",
+        "explanation": "The argument-count test is proved to hold before EVERY hand-over to apply_scheme_procedure / a builtin body in the "
+                       "trampoline loop (first call and every tail call), and an unacceptable count is proved to yield the ArgumentMissMatch "
+                       "kind; division by exact zero is proved to be the DivisionByZero error (C09 unit).",
+        "unverified": _TAIL_UNVERIFIED + ["unbound variables (LexicalScope over RefCell<HashMap>), expect_* type tests on Value payloads, "
+                                          "vector index checks, 'keeps exactly the effects completed before the error' (a statement about histories)"],
+        "assumptions": ["library_map registers every builtin body with its own parameter list (axiom_builtin_table)"],
+    },
     "C18": {
         "verus": ["repl_complete"], "kani": [], "native": ["complete_witness", "complete_oracle"],
         "level": "proof",
